@@ -283,13 +283,19 @@ class _SeqHandler:
 
 
 def run_sequence(cases, rrqs, limits):
-    """ONE real TftpServer object serves the read requests `rrqs` one after the other through the real
-    _process_request / decode_read_request / _handle_read; each transfer runs under its own fake socket with the
-    client script of the corresponding case.  Returns one trace per request (as tftp_common.run_impl does)."""
+    """ONE real TftpServer object serves the read requests `rrqs` one after the other through its PUBLIC interface:
+    start() on a fake request socket that delivers the requests, the real serve loop, decode_read_request, the real
+    constructor and transfer thread; each transfer runs under its own fake socket with the client script of the
+    corresponding case; stop() at the end.  The module under test is patched by scanning its namespace (nspatch), no
+    private name of it is used.  Returns one trace per request (as tftp_common.run_impl does)."""
+    import logging
     import socket as real_socket
+    import threading
+    import time as real_time
     import fake_net
+    import nspatch
     from vinegar.tftp import server as S
-    state = {}
+    state = {"clock": [0.0], "log": [], "paths": [], "script": [], "case": None}
 
     class Handler(S.TftpRequestHandler):
         def can_handle(self, filename, context):
@@ -305,85 +311,128 @@ def run_sequence(cases, rrqs, limits):
                 return T._LoggedFile(f, state["log"])
             f = T.open_stream(c, state["log"], state["paths"])
             return f if isinstance(f, (T._LoggedBytesIO, T.BufferedChunkedStream)) else T._LoggedFile(f, state["log"])
+
+    class ReqSock:
+        """request socket: hands out the queued requests, blocks (in short time-outs) while there is none"""
+        def __init__(self):
+            self.queue = []
+            self.taken = 0
+            self.idle = threading.Event()
+            self.replies = []
+
+        def settimeout(self, t):
+            pass
+
+        def bind(self, addr):
+            pass
+
+        def getsockname(self):
+            return fake_net.SRV
+
+        def setsockopt(self, level, opt, value):
+            if level == real_socket.IPPROTO_IPV6 and opt == getattr(real_socket, "IPV6_RECVPKTINFO", -1):
+                raise OSError("not available")
+
+        def recvfrom(self, n):
+            if self.queue:
+                self.idle.clear()
+                self.taken += 1
+                return self.queue.pop(0)
+            self.idle.set()
+            real_time.sleep(0.0005)
+            raise real_socket.timeout("timed out")
+
+        def sendto(self, data, addr):
+            self.replies.append((bytes(data), addr))
+
+        def close(self):
+            pass
+    req = ReqSock()
+    made = []
+    started = []
+
+    def make_socket(*a, **k):
+        made.append(1)
+        if len(made) == 1:
+            return req
+        return fake_net.FakeSock(list(state["script"]), state["clock"], state["log"], 0)
+
+    class RecThread(threading.Thread):
+        def start(self_t):
+            started.append(self_t)
+            return super().start()
+
+    class ErrLog(logging.Handler):
+        def emit(self, record):
+            if record.exc_info and record.levelno >= logging.ERROR:
+                state["log"].append(("logexc", record.exc_info[0].__name__ if record.exc_info[0] else "exc"))
     max_bs, max_tmo, dflt, retries = limits
     srv = S.TftpServer([Handler()], default_timeout=dflt, max_timeout=max_tmo, max_retries=retries,
                        max_block_size=max_bs, block_counter_wrap_value=0)
-    replies = []
-    srv._socket = types.SimpleNamespace(sendto=lambda data, addr: replies.append((bytes(data), addr)))
-    created = []
-    real_class = S._TftpReadRequest
-
-    class Rec(real_class):
-        def __init__(self, *a):
-            super().__init__(*a)
-            created.append(self)
+    undo = nspatch.patch_namespace(S, make_socket=make_socket, monotonic=lambda: state["clock"][0], thread_class=RecThread)
+    h = ErrLog()
+    lgs = nspatch.loggers(S) or [logging.getLogger("vinegar.tftp.server")]
+    saved = [(lg, lg.level, lg.propagate) for lg in lgs]
+    for lg in lgs:
+        lg.addHandler(h)
+        lg.setLevel(logging.INFO)
+        lg.propagate = False
     traces = []
-    for c, rq in zip(cases, rrqs):
-        clock = [0.0]
-        log = []
-        state.update(case=c, log=log, paths=[])
-        shim = types.SimpleNamespace(**{k: getattr(real_socket, k) for k in dir(real_socket) if not k.startswith("__")})
-        script = [(t, T.ADDRS[a], d) for (t, a, d) in c["events"]]
-        shim.socket = lambda **k: fake_net.FakeSock(list(script), clock, log, 0)
-        old = (S.socket, S.time, S._TftpReadRequest)
-        S.socket, S.time, S._TftpReadRequest = shim, types.SimpleNamespace(monotonic=lambda: clock[0]), Rec
-        import threading as real_threading
-        started = []
-
-        class RecThread(real_threading.Thread):
-            def start(self_t):
-                started.append(self_t)
-                return super().start()
-        old_thr = S.threading
-        thr = types.SimpleNamespace(**{k: getattr(real_threading, k) for k in dir(real_threading) if not k.startswith("__")})
-        thr.Thread = RecThread
-        S.threading = thr
-        h = fake_net._Log(log)
-        S.logger.addHandler(h)
-        old_level, old_prop = S.logger.level, S.logger.propagate
-        S.logger.setLevel(20)
-        S.logger.propagate = False
-        del created[:]
-        del replies[:]
-        try:
-            try:
-                srv._process_request(rq, fake_net.CLI, fake_net.SRV)
-            except Exception as ex:
-                log.append(("logexc", type(ex).__name__))
-            for t in started:                  # not by a private attribute name of the request object
+    try:
+        srv.start()
+        for c, rq in zip(cases, rrqs):
+            log = []
+            state.update(case=c, log=log, paths=[], clock=[0.0],
+                         script=[(t, T.ADDRS[a], d) for (t, a, d) in c["events"]])
+            del req.replies[:]
+            n_before = len(started)
+            taken = req.taken
+            req.idle.clear()
+            req.queue.append((bytes(rq), fake_net.CLI))
+            deadline = real_time.time() + 60
+            while real_time.time() < deadline and not (req.taken > taken and req.idle.is_set()):
+                if started and not started[0].is_alive():
+                    break                              # the serve loop has ended
+                req.idle.wait(0.002)
+            transfer_threads = started[max(n_before, 1):]
+            for t in transfer_threads:
                 t.join(60)
                 if t.is_alive():
                     log.append(("hang",))
-        finally:
-            S.socket, S.time, S._TftpReadRequest = old
-            S.threading = old_thr
-            S.logger.removeHandler(h)
-            S.logger.setLevel(old_level)
-            S.logger.propagate = old_prop
             for p in state["paths"]:
                 try:
                     os.remove(p)
                 except OSError:
                     pass
-        out = []
-        if replies or not created:
-            out.append([99, b"request port: no transfer started / reply " + b"".join(r[0] for r in replies)[:40]])
-        for e in log:
-            if e[0] == "send":
-                out.append([1, e[1], T.ADDR_ID.get(e[2], 9), T.parse_packet(e[3])])
-            elif e[0] == "recv":
-                out.append([2, e[1], T.ADDR_ID.get(e[2], 9), e[3]])
-            elif e[0] == "timeout":
-                out.append([3, e[1]])
-            elif e[0] == "logexc":
-                out.append([4])
-            elif e[0] == "close_file":
-                out.append([5])
-            elif e[0] == "close_sock":
-                out.append([6])
-            elif e[0] == "hang":
-                out.append([98])
-        traces.append(out)
+            out = []
+            if req.replies or not transfer_threads:
+                out.append([99, b"request port: no transfer started / reply " + b"".join(r[0] for r in req.replies)[:40]])
+            for e in log:
+                if e[0] == "send":
+                    out.append([1, e[1], T.ADDR_ID.get(e[2], 9), T.parse_packet(e[3])])
+                elif e[0] == "recv":
+                    out.append([2, e[1], T.ADDR_ID.get(e[2], 9), e[3]])
+                elif e[0] == "timeout":
+                    out.append([3, e[1]])
+                elif e[0] == "logexc":
+                    out.append([4])
+                elif e[0] == "close_file":
+                    out.append([5])
+                elif e[0] == "close_sock":
+                    out.append([6])
+                elif e[0] == "hang":
+                    out.append([98])
+            traces.append(out)
+    finally:
+        try:
+            srv.stop()
+        except Exception:      # noqa: BLE001
+            pass
+        undo()
+        for lg, lvl, prop in saved:
+            lg.removeHandler(h)
+            lg.setLevel(lvl)
+            lg.propagate = prop
     return traces
 
 
@@ -419,6 +468,22 @@ class C07(C01):
         return with_script(c, style, rng)
 
     def gen(self, tier, rng):
+        """all cases on the unchanged code; when the private per-transfer class is not available with the known
+        signature (a structural refactoring), only the cases the PUBLIC route can express are evaluated: server limits
+        inside the documented ranges and option strings that survive the wire (ASCII, no NUL) - see docs/C07.md"""
+        import fake_net
+        private = fake_net.private_class() is not None
+        skipped = 0
+        for c in self.gen_all(tier, rng):
+            if private or (fake_net.public_domain(c["default_tmo"], c["max_tmo"], c["retries"], c["max_bs"], c["wrap"])
+                           and c.get("proc", 0) == 0
+                           and all(ch != "\x00" and ord(ch) < 128 for kv in c["options"] for x in kv for ch in x)):
+                yield c
+            else:
+                skipped += 1
+        self.skipped_not_publicly_expressible = skipped
+
+    def gen_all(self, tier, rng):
         quick = tier == "quick"
         # (0) witnesses of the repaired defects first (D2: blksize above the limit; D3: file offset, pipe)
         for name in ("blksize", "BlkSize"):
@@ -565,9 +630,17 @@ class C07(C01):
             if model_kind(c["kind"]) != c["kind"]:
                 return canon_oack(run_impl_custom(c))
             return canon_oack(T.run_impl(c))
-        except Exception:      # noqa: BLE001
+        except Exception as ex:      # noqa: BLE001
             # the constructor of _TftpReadRequest raised: it runs in the request-port thread, where this is the
-            # internal-error path (nothing is sent, an exception is logged) - a concrete failing input, not a crash
+            # internal-error path (nothing is sent, an exception is logged) - a concrete failing input, not a crash.
+            # Only exceptions raised INSIDE the code under test count; an exception raised by the harness itself (the
+            # module has no such attribute, the constructor's signature has changed) is a harness problem and must
+            # not be turned into a failing input
+            tb = ex.__traceback__
+            while tb.tb_next is not None:
+                tb = tb.tb_next
+            if os.path.join("vinegar", "") not in tb.tb_frame.f_code.co_filename:
+                raise
             return [[4]]
 
     def line(self, c, obs):
